@@ -97,6 +97,15 @@ def check(repo, res, tier):
                            "ode_and_sensitivity," + lab, chain=("sensitivity", "eval_sensitivity"))
             _cmp(res, "R-VAR", fn, "ode_and_sensitivity," + lab, out, append(w.f, w.rhs_sens(by_state)), "augmented rhs = [f; vec(J S + G)]",
                  "ode_and_sensitivity(%s) is not [f; J S + G]" % lab)
+            # the same call with a vector the caller built from whole numbers (a list of ints, an integer array - the usual start
+            # [x0, 0, ..., 0]): the right-hand side is real-valued all the same
+            sp_int = append(w.x, w.sens_vec(by_state))
+            sp_int.int_typed = True
+            fn_i, out_i = _run(res, "R-VAR", w, "ode_and_sensitivity", {"state_param": sp_int, "t": A.sym("t"), "by_state": by_state},
+                               "ode_and_sensitivity(integer-typed input)," + lab, chain=("sensitivity", "eval_sensitivity"))
+            _cmp(res, "R-VAR", fn_i, "ode_and_sensitivity(integer-typed input)," + lab, out_i, append(w.f, w.rhs_sens(by_state)),
+                 "augmented rhs = [f; vec(J S + G)] also for an integer-typed input vector",
+                 "ode_and_sensitivity(%s) with an integer-typed input vector is not [f; J S + G] (values are cast to the integer type of the input)" % lab)
             # evaluators called at the state part of the augmented vector
             bad = [c for c in w.calls if not (isinstance(c[1], SymArr) and c[1].same(w.x))]
             res.check(not bad, "R-VAR", fn, "evaluated-at-state," + lab, "evaluators are called with the state block of the augmented vector",
@@ -115,6 +124,13 @@ def check(repo, res, tier):
                        chain=("sensitivityIV", "eval_sensitivityIV"))
         _cmp(res, "R-VARIV", fn, "rhsIV" + sh, out, append(append(w.f, w.rhs_sens(False)), w.rhs_iv()),
              "[f; vec(J S + G); vec_F(J IV)]", "ode_and_sensitivityIV is not [f; J S + G; J IV] in the documented layout")
+        w.calls.clear()
+        spiv_int = append(append(w.x, w.sens_vec(False)), w.iv_vec())
+        spiv_int.int_typed = True
+        fn_i, out_i = _run(res, "R-VARIV", w, "ode_and_sensitivityIV", {"state_param": spiv_int, "t": A.sym("t")}, "rhsIV(integer-typed input)" + sh,
+                           chain=("sensitivityIV", "eval_sensitivityIV"))
+        _cmp(res, "R-VARIV", fn_i, "rhsIV(integer-typed input)" + sh, out_i, append(append(w.f, w.rhs_sens(False)), w.rhs_iv()),
+             "[f; vec(J S + G); vec_F(J IV)] also for an integer-typed input vector", "ode_and_sensitivityIV with an integer-typed input vector is not [f; J S + G; J IV]")
         w.calls.clear()
         fn, out = _run(res, "R-JAC", w, "ode_and_sensitivityIV_jacobian", {"state_param": spiv, "t": A.sym("t")}, "jacobianIV" + sh,
                        chain=("sens_jacobian_state", "eval_sens_jacobian_state"))
